@@ -37,7 +37,7 @@ func init() {
 			"a violation is an *attempt* (dial or sendto) toward a protected address by a user without the flag, whether or not something listens there",
 		},
 		Units:          units,
-		QuickBudget:    60,
+		QuickBudget:    240,
 		ThoroughBudget: 300,
 	})
 }
